@@ -641,8 +641,13 @@ def rule_build_guards(F, ev_unused, R, config, rule="R-BUILD-GUARDS"):
                     okn = f.get("parameter_names") == ("field", me, "parameter_names") and f.get("basefunctions") == ("field", me, "basefunctions")
                     R.add(rule, config, b.key, "model-keeps-names-and-functions", okn, "" if okn else "names/functions are not carried over unchanged", s.get("span"))
     # --- create_wrapped_basis_function: Ok only after names, arity and mapping were checked ------
+    from rules_model import wrapper_fn
+    try:
+        wkey = wrapper_fn(F).key
+    except AnchorMissing:
+        wkey = None
     for b in F.bodies.values():
-        if b.kind != "Closure" and b.key.endswith("create_wrapped_basis_function"):
+        if b.kind != "Closure" and b.key == wkey:
             oks = [bi for bi, si, s in b.stmts() if s["k"] == "assign" and s["place"]["l"] == 0 and s["rv"]["k"] == "agg" and s["rv"].get("variant") == "Ok"]
             need = {"names(model)": False, "names(function)": False, "arity": False, "mapping": False}
             for bi in oks:
@@ -656,7 +661,8 @@ def rule_build_guards(F, ev_unused, R, config, rule="R-BUILD-GUARDS"):
                 # mapping: every function parameter was found in the model list
                 if conj_find(conds, lambda f: f[0] == "forall" and f[1] == P2(b) and f[2][0] == "exists" and f[2][1] == P1(b), under_exists=False) or \
                         conj_find(conds, lambda f: f[0] == "atom" and f[1][0] == "present" and contains(f[1], lambda x: x[0] == "call" and x[1].endswith("Iterator::collect")) and
-                                  contains(f[1], lambda x: x[0] == "closure" and "create_index_mapping" in x[1])):
+                                  contains(f[1], lambda x: x[0] == "closure" and F.bodies.get(x[1]) is not None and
+                                           "Vec<usize>" in F.bodies.get(F.bodies[x[1]].j.get("root", ""), F.bodies[x[1]]).j.get("output", ""))):
                     need["mapping"] = True
             for k, v in need.items():
                 R.add(rule, config, b.key, "wrapped-fn-needs:" + k, v, "" if v else "a function can be wrapped without the check `%s`" % k, b.j["span"])
